@@ -318,7 +318,11 @@ fn check_c06(l: &Ledger, _e: &[(String, String)], _s: &PropSpec) -> Vec<Violatio
     // rejected responses); the estimator reference of C15 decides "no sample so far"
     for v in crate::oracle_rtt::check_c15(l).0 {
         if v.key.ends_with("(initial)") {
-            out.push(Violation { prop: "C06", key: v.key.replace("C15/", "C06/schedule-not-based-on-the-configured-rto:"), step: v.step, detail: v.detail });
+            out.push(Violation { prop: "C06", key: v.key.replace("C15/", "C06/schedule-not-based-on-the-configured-rto:"), step: v.step, detail: v.detail.clone() });
+        }
+        // ... and a timer call (retransmission, time-out) never changes the RTO later requests are scheduled with
+        if v.key == "C15/rto-changed-by-timer-call" {
+            out.push(Violation { prop: "C06", key: "C06/rto-for-later-requests-changed-by-a-timer-call".into(), step: v.step, detail: v.detail });
         }
     }
     out
